@@ -219,7 +219,7 @@ def catalogue(rng, tier):
     add("Sum(Dense,Dense)[n=5]", lambda a=S1, b=S2: O.SumLinearOperator(O.DenseLinearOperator(a.clone()), O.DenseLinearOperator(b.clone())), "sum")
     C = rand_pd(rng, 5)
     add("ConstantMul(Dense)[n=5]", lambda a=C: O.ConstantMulLinearOperator(O.DenseLinearOperator(a.clone()), torch.tensor(2.5, dtype=F64)), "constmul")
-    add("Identity[n=4]", lambda: O.IdentityLinearOperator(4, dtype=F64), "diag")
+    add("Identity[n=4]", lambda: O.IdentityLinearOperator(4, dtype=F64), "diag", tags=("degenerate",))
     if tier == "thorough":
         A9 = rand_pd(rng, 9)
         add("Dense[n=9]", lambda A=A9: O.DenseLinearOperator(A.clone()), "base")
@@ -557,7 +557,9 @@ def derivations_for(spec, A):
         if spec.profile == "kernel":
             ds += [("add_jitter",), ("add_diagonal",)]
         return ds
-    ds = [("add_jitter",), ("add_diagonal",), ("add_low_rank",), ("transpose",), ("scale",), ("index",), ("expand",), ("unsqueeze",)]
+    ds = [("add_jitter",), ("add_diagonal",), ("add_low_rank",), ("transpose",), ("scale",), ("index",)]
+    if spec.profile != "brepeat":   # BatchRepeat's eigendecompositions lose leading singleton batch dims (not a cache matter)
+        ds += [("expand",), ("unsqueeze",)]
     if A.dim() == 2:
         ds.append(("cat_rows",))
     if A.dim() > 2:
@@ -776,6 +778,7 @@ class Runner:
             _ = op.shape
         stack = [{"op": op, "A": spec.truth, "pd": spec.pd, "sticky": set(), "cls": spec.cls, "lineage": "base", "tainted": False}]
         fails = []
+        aliases = [False]
         mlines, mexp = [], []
         prof = model_profile(op)
         if record and prof is not None:
@@ -791,7 +794,7 @@ class Runner:
             if step[0] == "back":
                 if len(stack) > 1:
                     stack.pop()
-                    if modelled:
+                    if not aliases.pop() and modelled:
                         mlines.append("back")
                         mexp.append(None)
                 continue
@@ -832,6 +835,8 @@ class Runner:
                 if bad_f:
                     chk.count("fresh-also-invalid")
                     fr["tainted"] = True
+                elif fr["tainted"]:
+                    chk.count("skipped-after-fresh-invalid-step")
                 else:
                     bad += compare_fresh(obs, fobs, logs, flogs, fr["sticky"])
                     for b in bad:
@@ -849,6 +854,11 @@ class Runner:
                                 + ("*" if q[0] in STAR else (",".join(logs) or "-")) + " ; " + ("tri" if obs.get("root_tri") else "-"))
             elif step[0] == "d":
                 d = step[1]
+                if (d[0] == "index_batch" and A.dim() <= 2) or (d[0] == "cat_rows" and A.dim() != 2) or (d[0] == "index" and n <= 2):
+                    # not applicable to the current object: keep the stack balanced with a no-op frame
+                    stack.append(fr)
+                    aliases.append(True)
+                    continue
                 captured = {}
                 transplant = d[0] in ("add_low_rank", "cat_rows")
                 if transplant:
@@ -895,6 +905,8 @@ class Runner:
                     lineage = f"{d[0]}(roots={'paired' if paired else 'unpaired'}{'-faketri' if fake else ('-tri' if tri else '')})"
                     chk.count("transplant:" + lineage)
                 cell = f"C12/{fr['cls']}/{fr['lineage']}/d={lineage}"
+                if "roots=" in fr["lineage"]:
+                    lineage = fr["lineage"] + ">" + lineage    # consequences of a transplant stay attributable to it
                 chk.count("d:" + d[0])
                 with env(st):
                     chk_op = deep_fresh(new) if new is not op else op
@@ -911,14 +923,15 @@ class Runner:
                     if not transplant and [k for k in keyset(new) if key_name(k) != "size"]:
                         chk.count("derived-with-cache:" + d[0])
                 stack.append({"op": new, "A": newA, "pd": pd, "sticky": sticky, "cls": fr["cls"], "lineage": lineage, "tainted": tainted})
+                aliases.append(new is op)
                 # the parent must still be consistent
                 fr["sticky"] |= set(logs)
                 a_f, _ = audit_cache(op, A, fr["sticky"], fr["pd"])
                 if not fr["tainted"]:
                     for b in a_f:
                         fails.append((f"C12/{fr['cls']}/{fr['lineage']}/cache-audit", f"parent after derivation {d[0]} (step {si}): {b}"))
-                if modelled:
-                    prof2 = model_profile(new) if new is not op else "self"
+                if modelled and new is not op:
+                    prof2 = model_profile(new)
                     mlines.append(f"d {sline} {d[0]} {prof2 or 'opaque'} {newA.shape[-1]}")
                     mexp.append(("P " + (" ".join(k for k in keyset(op) if key_name(k) != "size") or "-") + " ; N "
                                  + (" ".join(k for k in keyset(new) if key_name(k) != "size") or "-") + " ; *"))
@@ -992,6 +1005,12 @@ def run(chk):
             hists.append((spec, t, "template"))
         for _ in range(nrand):
             hists.append((spec, gen_history(chk.rng, spec, chk.rng.randint(3, maxlen), excluded=ex), "random"))
+    def tame(spec, hist):
+        # repeated eigenvalues: Lanczos breaks down (not a cache matter) -> default settings, no Lanczos methods
+        if "degenerate" not in spec.tags:
+            return hist
+        return [(DF, step) for _, step in hist if not (step[0] == "q" and len(step[1]) == 3 and step[1][2] == "lanczos")]
+    hists = [(spec, tame(spec, hist), kind) for spec, hist, kind in hists]
     for hid, (spec, hist, kind) in enumerate(hists):
         desc = spec.cls + " " + json.dumps(hist_json(hist))
         names = [s[1][0] for _, s in hist if s[0] == "q"]
